@@ -9,6 +9,7 @@ import (
 	"math"
 	"strconv"
 	"strings"
+	"unicode/utf8"
 
 	"github.com/rulego/streamsql/functions"
 	"verifharness/internal/gen"
@@ -226,7 +227,8 @@ var fnTable = []*fnSpec{
 	// conventions not fixed by the guide: differential
 	{name: "substring", args: []string{"s", "k"}, ret: "s", nullDiff: true},
 	{name: "substring", args: []string{"s", "k", "k"}, ret: "s", nullDiff: true, laws: func(a []rv, out rv) string {
-		if a[0].k == 's' && a[2].k == 'n' && out.k == 's' && (float64(len(out.s)) > a[2].f || !strings.Contains(a[0].s, out.s)) {
+		// (a negative length yields the empty text; lengths count characters, not bytes)
+		if a[0].k == 's' && a[2].k == 'n' && out.k == 's' && (float64(utf8.RuneCountInString(out.s)) > math.Max(a[2].f, 0) || !strings.Contains(a[0].s, out.s)) {
 			return fmt.Sprintf("substring(%q,%v,%v)=%q is not a substring of at most that length", a[0].s, a[1].f, a[2].f, out.s)
 		}
 		return ""
